@@ -196,6 +196,11 @@ impl<M: EntityMatcher> TryFrom<&config::FieldMatcher> for MatchAndExpr<M> {
         let fields = okane_core::verif::permuted(from.fields.iter().collect::<Vec<_>>());
         #[cfg(not(okane_verif))]
         let fields = from.fields.iter();
+        // The map yields its fields in arbitrary order, while the result depends on it
+        // (a later field overrides the captures of an earlier one, and `payee` matches
+        // against the payee captured so far): apply them in the order of RewriteField.
+        let mut fields: Vec<_> = fields.into_iter().collect();
+        fields.sort_by_key(|(fd, _)| **fd);
         let matchers: Result<Vec<M>, _> = fields
             .into_iter()
             .map(|(fd, v)| (*fd, v.as_str()).try_into())
